@@ -571,3 +571,31 @@ Proof.
   - left; auto.
 Qed.
 End Own.
+
+(* ---------------------------------------------------------------- a passed stage point is not consulted *)
+
+(* voterecords.count does nothing for a record whose stage point the last point has moved past: no voteproof, no
+   change of the record (the guard "!last.Before(vr.sp, vr.isc)" of count(); countHolded() reaches count() without
+   the isNewBallot() check of countVoterecords()) *)
+Lemma rec_count_passed e known last th el pv px r sp :
+  r_sp r = Some sp -> before last sp (r_isc r) = false ->
+  rec_count e known last th el pv px r = (r, []).
+Proof. intros S B. unfold rec_count. rewrite S, B. reflexivity. Qed.
+
+Lemma count_passed pf e i el pv px b sp :
+  r_sp (rec_of b i) = Some sp -> bx_last b <> None -> before (bx_last b) sp (r_isc (rec_of b i)) = false ->
+  box_count pf e i el pv px b = (b, []).
+Proof.
+  intros S L B. unfold rec_of in *. unfold box_count. rewrite S.
+  unfold is_new_ballot. destruct (bx_last b) as [l|] eqn:E; [|contradiction]. rewrite B. reflexivity.
+Qed.
+
+Lemma held_passed e i el pv px b sp :
+  r_sp (rec_of b i) = Some sp -> before (bx_last b) sp (r_isc (rec_of b i)) = false ->
+  snd (box_held e i el pv px b) = [] /\ forall j, rec_of (fst (box_held e i el pv px b)) j = rec_of b j.
+Proof.
+  intros S B. unfold rec_of in S, B. unfold box_held.
+  destruct (negb (r_hold _)); [split; auto|]. destruct (negb el); [split; auto|].
+  rewrite (rec_count_passed e (bx_known b) (bx_last b) _ el pv px _ sp S B). cbn [fst snd]. split; auto.
+  intros j. rewrite rec_of_upd. destruct (Nat.eqb j i) eqn:X; auto. apply Nat.eqb_eq in X; subst. reflexivity.
+Qed.
